@@ -6,6 +6,7 @@ import (
 	"bytes"
 	"encoding/hex"
 	"fmt"
+	appsTypes "github.com/pokt-network/pocket-core/x/apps/types"
 	"runtime"
 	"strconv"
 	"strings"
@@ -13,6 +14,7 @@ import (
 	"sync/atomic"
 	"testing"
 	"time"
+	"verif/harness/chain"
 
 	"pgregory.net/rapid"
 
@@ -233,7 +235,22 @@ func TestC34(t *testing.T) {
 			// sessions does not fit and the store flushes itself to its database when a new entry arrives
 			maxEv := rapid.SampledFrom([]int{0, 0, 1, 2}).Draw(rt, "maxEvidenceCacheEntries")
 			// allowance = round(stake / 3 chains / snc) = limit
-			w := newRelayWorldOpts(rt, relayWorldOpts{KBoth: kBoth, Bps: bps, App0Stake: limit * 3 * int64(kBoth+1), StopAt: 1 + 2*bps, Lean: lean, MaxEvidenceEntries: maxEv})
+			// in a quarter of the worlds the application doubles its stake in the block AFTER the session's first block: the
+			// allowance of the running session is the one of its first block, so the limit below does not move
+			opts := relayWorldOpts{KBoth: kBoth, Bps: bps, App0Stake: limit * 3 * int64(kBoth+1), StopAt: 1 + 2*bps, Lean: lean, MaxEvidenceEntries: maxEv}
+			if rapid.Bool().Draw(rt, "appBumpsStakeMidSessionA") && rapid.Bool().Draw(rt, "appBumpsStakeMidSessionB") {
+				c.Label("application-doubles-stake-after-session-start")
+				opts.StopAt = 2 + 2*bps
+				bumpAt := opts.StopAt
+				opts.TxsAt = func(w *relayWorld, height int64) []worldTx {
+					if height != bumpAt {
+						return nil
+					}
+					msg := &appsTypes.MsgStake{PubKey: w.app0.PublicKey(), Chains: []string{"0001", "0021", "0040"}, Value: sdk.NewInt(2 * limit * 3 * int64(kBoth+1) * 1_000_000)}
+					return []worldTx{{Desc: "MsgStake{app0 doubles its stake}", Bytes: chain.SignTx(w.spec.ChainID, msg, chain.DefaultFee, "", w.nextEntropy(), w.app0)}}
+				}
+			}
+			w := newRelayWorldOpts(rt, opts)
 			defer w.close()
 			defer func() { pocketTypes.VerifYield = nil }()
 			c.Opf("%s limit=%d", w.desc, limit)
